@@ -95,6 +95,17 @@ func vRunCase6(t *testing.T, c vCase) (msg string) {
 		e.Equal(f)
 		e.Multiply(u)
 		e.Set(f)
+		// identity receivers take different routes through some implementations
+		for _, idr := range []*Element{NewElement(), vElementOf(vInf(), big.NewInt(9)), NewElement().Identity()} {
+			idr.Subtract(f)
+			if !bytes.Equal(fb, f.Encode()) {
+				return "Subtract with an identity receiver modified its operand"
+			}
+			idr.Identity().Add(f)
+			if !bytes.Equal(fb, f.Encode()) {
+				return "Add with an identity receiver modified its operand"
+			}
+		}
 		if !bytes.Equal(fb, f.Encode()) || !bytes.Equal(ub, u.Encode()) {
 			return "an element/scalar operand was modified"
 		}
